@@ -544,7 +544,7 @@ class Context:
 
     def _create_math_object(self) -> JSObject:
         """Create the Math global object."""
-        math_obj = JSObject()
+        math_obj = JSObject(self._object_prototype)  # an ordinary object
         to_number = self._number_arg  # arguments may be objects
 
         # Constants
@@ -789,7 +789,7 @@ class Context:
 
     def _create_json_object(self) -> JSObject:
         """Create the JSON global object."""
-        json_obj = JSObject()
+        json_obj = JSObject(self._object_prototype)  # an ordinary object
         ctx = self  # Reference for closures
 
         def parse_fn(*args):
